@@ -222,11 +222,13 @@ func C20(c *core.Ctx) {
 	}
 	// the id that routing compares with the --schema-package/--schema-output/--schema-root-type keys is the id AS WRITTEN in the document:
 	// Schema.ID receives only the decoded "$id" (or the legacy "id" when "$id" is absent) and nothing rewrites it
-	if r := a.LegacyFold(engb.LegacyPair{Func: "(*pkg/schemas.Schema).UnmarshalJSON", CurTag: "$id", LegacyTag: "id"}); r.OK {
-		c.Pass("B-LEGACY", "(*pkg/schemas.Schema).UnmarshalJSON", "schema id reaches routing verbatim (id -> $id)", r.How)
-	} else {
-		c.Fail("B-LEGACY", "(*pkg/schemas.Schema).UnmarshalJSON", "schema id reaches routing verbatim (id -> $id)", r.Pos, strings.Join(r.Problems, "; "), r.Problems)
-	}
+	legacyPair(c, legacySemantic(c), "Schema", "id", "$id", func() (bool, string, string) {
+		r := a.LegacyFold(engb.LegacyPair{Func: "(*pkg/schemas.Schema).UnmarshalJSON", CurTag: "$id", LegacyTag: "id"})
+		if r.OK {
+			return true, r.How, r.Pos
+		}
+		return false, strings.Join(r.Problems, "; "), r.Pos
+	})
 	// B-PARENT: the file name under which a referenced file is processed (the base of ITS relative refs) is the resolved location
 	emit(c, a.ParentPath())
 	// B-REFCACHE: a cache keyed by the file-relative text of a $ref must live and die with one file's generator, or the code for a
